@@ -78,6 +78,9 @@ func (p c08) Run(runseed uint64, tier string, acc *Acc) []*core.Violation {
 	if f.W.Large {
 		acc.Inc("class/large")
 	}
+	if f.W.Many {
+		acc.Inc("class/many-row-groups")
+	}
 	for c := 1; c <= maxReq; c++ {
 		switch {
 		case c > 512: // only large files request this much at once: seeded sample of about 64 sizes
